@@ -31,6 +31,9 @@ def assert_near(
     if numpy.issubdtype(value.dtype, numpy.datetime64):
         target_value = numpy.array(target_value, dtype=value.dtype)
         assert_datetime_equals(value, target_value, message)
+    if value.dtype.kind in "OSU":
+        # Values of ``str`` variables can only be compared for equality.
+        return assert_str_equals(value, target_value, message)
     if isinstance(target_value, str):
         target_value = commons.eval_expression(target_value)
 
@@ -51,6 +54,18 @@ def assert_near(
 
 
 def assert_datetime_equals(value, target_value, message="") -> None:
+    assert (
+        value == target_value
+    ).all(), f"{message}{value} differs from {target_value}."
+
+
+def assert_str_equals(value, target_value, message="") -> None:
+    import numpy
+
+    if value.dtype.kind == "S":
+        value = numpy.char.decode(value)
+    value = value.astype(str)
+    target_value = numpy.array(target_value).astype(str)
     assert (
         value == target_value
     ).all(), f"{message}{value} differs from {target_value}."
